@@ -1,0 +1,41 @@
+//go:build verif
+
+package vm
+
+// Contracts for the verifier in /verif (comment-only; compiled only with -tags verif).
+// The spec vocabulary (S, top, T1, T2, pushed1, topInt, truthy ...) is defined in /verif/spec.
+
+//@ func (vm *VM) nativeBoolToBooleanObject(input bool) (result *object.Boolean)
+//@   modifies nothing
+//@   ensures nb.def: result != nil && result.Value == input && !fresh(result)
+//@   panics never
+
+//@ func (vm *VM) executeBangOperator() (err error)
+//@   requires vmOK(vm) && stackValid(vm)
+//@   modifies vm.stack.entries, vm.stack.entries[*]
+//@   ensures @C01 @C05 bang.bool:  old(depth(vm)) >= 1 && isBool(T1(vm)) ==> err == nil && replaced1(vm) && topBool(vm, !old(bval(T1(vm))))
+//@   ensures @C01 @C05 bang.null:  old(depth(vm)) >= 1 && isNull(T1(vm)) ==> err == nil && replaced1(vm) && topBool(vm, true)
+//@   ensures @C01 @C05 bang.other: old(depth(vm)) >= 1 && !isBool(T1(vm)) && !isNull(T1(vm)) ==> err == nil && replaced1(vm) && topBool(vm, false)
+//@   ensures @C18 bang.underflow:  old(depth(vm)) == 0 ==> err != nil
+//@   ensures bang.valid: stackValid(vm)
+//@   panics never
+
+//@ func (vm *VM) executeMinusOperator() (err error)
+//@   requires vmOK(vm) && stackValid(vm)
+//@   modifies vm.stack.entries, vm.stack.entries[*]
+//@   ensures @C01 minus.int:   old(depth(vm)) >= 1 && isInt(T1(vm))   ==> err == nil && replaced1(vm) && topInt(vm, wrap64(0 - old(ival(T1(vm)))))
+//@   ensures @C01 minus.float: old(depth(vm)) >= 1 && isFloat(T1(vm)) ==> err == nil && replaced1(vm) && topFloat(vm, -old(fval(T1(vm))))
+//@   ensures @C01 minus.other: old(depth(vm)) >= 1 && !isInt(T1(vm)) && !isFloat(T1(vm)) ==> err != nil
+//@   ensures @C18 minus.underflow: old(depth(vm)) == 0 ==> err != nil
+//@   ensures minus.valid: stackValid(vm)
+//@   panics never
+
+//@ func (vm *VM) executeSquareRoot() (err error)
+//@   requires vmOK(vm) && stackValid(vm)
+//@   modifies vm.stack.entries, vm.stack.entries[*]
+//@   ensures @C01 sqrt.int:   old(depth(vm)) >= 1 && isInt(T1(vm))   ==> err == nil && replaced1(vm) && topFloat(vm, fsqrt(i2f(old(ival(T1(vm))))))
+//@   ensures @C01 sqrt.float: old(depth(vm)) >= 1 && isFloat(T1(vm)) ==> err == nil && replaced1(vm) && topFloat(vm, fsqrt(old(fval(T1(vm)))))
+//@   ensures @C01 sqrt.other: old(depth(vm)) >= 1 && !isInt(T1(vm)) && !isFloat(T1(vm)) ==> err != nil
+//@   ensures @C18 sqrt.underflow: old(depth(vm)) == 0 ==> err != nil
+//@   ensures sqrt.valid: stackValid(vm)
+//@   panics never
